@@ -159,7 +159,7 @@ fn state_ops<C: KeyColl>(ex: &KeyExec<C>, t: i32, u: i32, r: i32, keys: &[i32], 
             }
         }
     }
-    for p in 0..=2 * u {
+    for p in -1..2 * u {
         ops.push(KOp::Get { t, k: p });
         ops.push(KOp::Fl { t, k: p });
         ops.push(KOp::Fle { t, k: p });
@@ -226,7 +226,7 @@ fn key_closure<C: KeyColl>(cfg: &Cfg, rep: &mut Report) {
         let mut transitions = 0u64;
         let mut depth = 0u64;
         let mut truncated = false;
-        let keys: Vec<i32> = (0..u).map(|i| 2 * i + 1).collect();
+        let keys: Vec<i32> = (0..u).map(|i| 2 * i).collect();
         'bfs: while !frontier.is_empty() {
             let mut next: Vec<(u32, KeyExec<C>, i32)> = Vec::new();
             for (idx, ex, t) in frontier.iter() {
@@ -261,9 +261,9 @@ fn key_closure<C: KeyColl>(cfg: &Cfg, rep: &mut Report) {
                                 ts += 1;
                             }
                         }
-                        for p in 0..=2 * u {
+                        for p in -1..2 * u {
                             suf.push(KOp::Fl { t: ts, k: p });
-                            suf.push(KOp::Fleb { t: ts, k: p, mode: (p % 3) as u8 });
+                            suf.push(KOp::Fleb { t: ts, k: p, mode: p.rem_euclid(3) as u8 });
                         }
                         suf.push(KOp::Empty);
                         suf.push(KOp::Export { t: ts + variant });
